@@ -54,43 +54,22 @@ Theorem C29_max_stale_invalid_is_valueless : forall v st it,
 Proof. exact cc_max_stale_first. Qed.
 Print Assumptions C29_max_stale_invalid_is_valueless.
 
-(* quoted arguments: exact on plain text (no backslash, HTAB, CR, LF, CTL), whatever follows the closing quote *)
-Theorem C29_quoted_plain_exact_partial : forall X junk,
-  forallb qd_char X = true -> forallb (fun c => negb (c =? 9)) X = true ->
-  let arg := 34 :: X ++ 34 :: junk in
-  rfc_unquote arg = Some X /\ parse_quoted_string arg (lenN arg) = QOk X.
-Proof. exact qs_plain_exact_partial. Qed.
-Print Assumptions C29_quoted_plain_exact_partial.
+(* MAIN (quoted arguments): for ALL inputs httpHeaderParseQuotedString over the whole argument is RFC 9110
+   quoted-string decoding -- qdtext incl. HTAB, quoted-pairs unescaped to the escaped octet (also DQUOTE and
+   backslash) -- with the two documented leniencies written into rfc_unquote: LWS folding reads as one SP and
+   whatever follows the closing DQUOTE is ignored; anything else is rejected *)
+Theorem C29_quoted_string_is_rfc : forall arg,
+  parse_quoted_string arg (lenN arg) = qres_of (rfc_unquote arg).
+Proof. exact pqs_is_rfc. Qed.
+Print Assumptions C29_quoted_string_is_rfc.
 
-(* ... and refuted at full strength: quoted-pairs of DQUOTE / backslash, and HTAB *)
-Theorem C29_quoted_pair_unescape_refuted :
-  exists arg t, rfc_unquote arg = Some t /\ parse_quoted_string arg (lenN arg) <> QOk t /\
-                parse_quoted_string arg (lenN arg) = QOk [97].
-Proof. exact quoted_pair_refuted. Qed.
-Print Assumptions C29_quoted_pair_unescape_refuted.
-
-Theorem C29_quoted_backslash_unescape_refuted :
-  exists arg t, rfc_unquote arg = Some t /\ parse_quoted_string arg (lenN arg) <> QOk t /\
-                parse_quoted_string arg (lenN arg) = QOk [97; 98].
-Proof. exact quoted_backslash_refuted. Qed.
-Print Assumptions C29_quoted_backslash_unescape_refuted.
-
-Theorem C29_htab_in_quoted_string_refuted :
-  exists arg t, rfc_unquote arg = Some t /\ parse_quoted_string arg (lenN arg) = QFail.
-Proof. exact htab_refuted. Qed.
-Print Assumptions C29_htab_in_quoted_string_refuted.
-
-Theorem C29_parse_quoted_pair_refuted :
-  exists v st t, cc_parse v = Some st /\ d_arg v = Some wit_qpair /\ rfc_unquote wit_qpair = Some t /\
-                 isSet st CC_PRIVATE = true /\ private_ st <> t /\ private_ st = [97].
-Proof. exact cc_quoted_pair_refuted. Qed.
-Print Assumptions C29_parse_quoted_pair_refuted.
-
-Theorem C29_parse_htab_refuted :
-  exists v st t, cc_parse v = Some st /\ d_arg v = Some wit_htab /\ rfc_unquote wit_htab = Some t /\
-                 isSet st CC_NO_CACHE = false /\ cc_ok st = false.
-Proof. exact cc_htab_refuted. Qed.
-Print Assumptions C29_parse_htab_refuted.
+(* decode (encode X) = X: what httpHeaderQuoteString writes (DQUOTE and backslash escaped) reads back as X,
+   for every text of HTAB / SP / VCHAR / obs-text octets, whatever follows the closing quote *)
+Theorem C29_quote_then_unquote : forall X junk, forallb txt_char X = true ->
+  rfc_unquote (quote_string X ++ junk) = Some X /\
+  parse_quoted_string (quote_string X) (lenN (quote_string X)) = QOk X.
+Proof. exact quote_roundtrip. Qed.
+Print Assumptions C29_quote_then_unquote.
 
 (* what parse() produces is well formed: numeric members of present directives are non-negative ints, the quoted
    texts contain no DQUOTE / backslash / CTL, absent directives hold their defaults, no bit at or above CC_OTHER *)
@@ -141,9 +120,22 @@ Example ex_max_stale :
   | None => false
   end = true.
 Proof. vm_compute. reflexivity. Qed.
-Example ex_plain : forallb qd_char [83;101;116;45;67;111;111;107;105;101;44;32;65;103;101] = true /\
-  forallb (fun c => negb (c =? 9)) [83;101;116;45;67;111;111;107;105;101;44;32;65;103;101] = true.
-Proof. vm_compute. split; reflexivity. Qed.
+(* the former counterexamples: DQUOTE a BACKSLASH DQUOTE b DQUOTE / a BACKSLASH BACKSLASH b / A , HTAB B *)
+Example ex_quoted_pairs :
+  parse_quoted_string wit_qpair (lenN wit_qpair) = QOk [97; 34; 98] /\
+  parse_quoted_string wit_qback (lenN wit_qback) = QOk [97; 92; 98] /\
+  parse_quoted_string wit_htab (lenN wit_htab) = QOk [65; 44; 9; 66].
+Proof. vm_compute. repeat split; reflexivity. Qed.
+(* private=DQUOTE a BACKSLASH DQUOTE b DQUOTE parses to a DQUOTE b and is packed re-quoted *)
+Example ex_requoted :
+  match cc_parse ([112;114;105;118;97;116;101;61] ++ wit_qpair) with
+  | Some st => list_eqb (private_ st) [97; 34; 98] &&
+               list_eqb (cc_pack st) ([112;114;105;118;97;116;101;61] ++ wit_qpair)
+  | None => false
+  end = true.
+Proof. vm_compute. reflexivity. Qed.
+Example ex_txt : forallb txt_char [97; 34; 92; 9; 98; 200] = true.
+Proof. vm_compute. reflexivity. Qed.
 Example ex_simple : simple [109;97;120;45;97;103;101;61;53;44;32;110;111;45;115;116;111;114;101] = true.
 Proof. vm_compute. reflexivity. Qed.
 Example ex_roundtrip_hyp :
